@@ -1127,6 +1127,11 @@ def propagate_toplevel(formula: FNode, env: Optional["pysmt.environment.Environm
             return -1
         if b.is_constant():
             return 1
+        if a.is_symbol() and b.is_symbol():
+            # The representative of a class does not depend on the
+            # order in which the symbols were created
+            an, bn = a.symbol_name(), b.symbol_name()
+            return (an > bn) - (an < bn)
         return a.node_id() - b.node_id()
 
     disjoint_set = DisjointSet(compare_fun=compare)
